@@ -77,18 +77,19 @@ main_c08(void)
     tsk_treeseq_t ts;
     tsk_tree_t tree;
     double W[MAXN], win1[2], win2[3], res1[MAXN + 1], res2[2 * (MAXN + 1)], expect[2][MAXN + 1], total = 0;
-    int ret, u, w, ns = 0, mode, polarised, in_set[MAXN];
+    int ret, u, w, ns = 0, mode, polarised, combo, wpat, in_set[MAXN];
     tsk_flags_t opt;
-    char nm[16];
 
     if (h_build_treeseq(&t, &ts, &T) != 0) {
         return 0;
     }
     /* weights: indicator of a sample set chosen by enumeration */
+    wpat = sym_choice("wpat", 0, 1);
     for (u = 0; u < NN; u++) {
         in_set[u] = 0;
         if (T.flags[u] & TSK_NODE_IS_SAMPLE) {
-            in_set[u] = sym_choice(sym_nm(nm, "w", ns), 0, 1);
+            /* sample set: all samples, or all but the first */
+            in_set[u] = wpat == 0 ? 1 : (ns > 0);
             W[ns++] = in_set[u];
             total += in_set[u];
         }
@@ -96,15 +97,16 @@ main_c08(void)
     if (ns == 0) {
         sym_assume(0);
     }
-    mode = sym_choice("mode", 0, NS > 0 ? 2 : 1); /* 0 branch, 1 node, 2 site */
-    polarised = sym_choice("polarised", 0, 1);
-    opt = (mode == 0 ? TSK_STAT_BRANCH : mode == 1 ? TSK_STAT_NODE : TSK_STAT_SITE) | (polarised ? TSK_STAT_POLARISED : 0);
     win1[0] = 0;
     win1[1] = SEQ_L;
     win2[0] = 0;
     win2[1] = sym_f64_int("b");
     sym_assume(0 < win2[1] && win2[1] < SEQ_L);
     win2[2] = SEQ_L;
+    for (combo = 0; combo < (NS > 0 ? 6 : 4); combo++) {
+    mode = combo / 2; /* 0 branch, 1 node, 2 site */
+    polarised = combo % 2;
+    opt = (mode == 0 ? TSK_STAT_BRANCH : mode == 1 ? TSK_STAT_NODE : TSK_STAT_SITE) | (polarised ? TSK_STAT_POLARISED : 0);
     ret = tsk_treeseq_general_stat(&ts, 1, W, 1, identity, NULL, 1, win1, opt, res1);
     sym_assert(ret == 0, "general_stat on one window");
     ret = tsk_treeseq_general_stat(&ts, 1, W, 1, identity, NULL, 2, win2, opt, res2);
@@ -181,6 +183,7 @@ main_c08(void)
     } else {
         sym_assert(res2[0] == expect[0][0] && res2[1] == expect[1][0], mode == 0 ? "branch statistic equals its definition in every window" : "site statistic equals its definition in every window");
         sym_assert(res1[0] == res2[0] + res2[1], "the coarse window equals the sum of its refinement");
+    }
     }
     tsk_treeseq_free(&ts);
     tsk_table_collection_free(&t);
